@@ -60,6 +60,7 @@ fn main() {
     match cmd {
         "gen" => gen::main_gen(),
         "inventory" => inventory::main_inventory(),
+        "normtokens" => inventory::main_normtokens(),
         "attrs" => attrs::main_attrs(),
         "envelope" => envelope::main_envelope(),
         "idcoerce" => envelope::main_idcoerce(),
